@@ -20,6 +20,8 @@ pub const ALPHABET: [&str; 31] = [
 
 pub enum Outcome {
     Agree { accepted: bool },
+    /// the text is in the zone the table leaves ambiguous; `reading` says which reading the parser followed
+    AgreeAmbiguous { accepted: bool, reading: &'static str },
     Mismatch { class: String, detail: String },
     Open,
 }
@@ -58,7 +60,9 @@ pub fn compare_text(text: &str) -> Outcome {
             Err((class, detail)) => Outcome::Mismatch { class, detail },
         },
         Verdict::Either { pinned, plain } => match (check(pinned), check(plain)) {
-            (Ok(a), _) | (_, Ok(a)) => Outcome::Agree { accepted: a },
+            (Ok(a), Ok(_)) => Outcome::AgreeAmbiguous { accepted: a, reading: "both" },
+            (Ok(a), Err(_)) => Outcome::AgreeAmbiguous { accepted: a, reading: "operands-are-access-level" },
+            (Err(_), Ok(a)) => Outcome::AgreeAmbiguous { accepted: a, reading: "operands-are-unary-level" },
             (Err((class, detail)), Err(_)) => Outcome::Mismatch { class: format!("{class} (contains/in with unary operand)"), detail },
         },
     }
@@ -78,6 +82,11 @@ fn judge_text(ctx: &mut Ctx, text: &str, family: &str, ntok: usize) {
                 ctx.hit(&format!("rejected:len{ntok}"));
                 ctx.sample(&format!("rejected:{family}"), || json!({"text": text}));
             }
+        }
+        Outcome::AgreeAmbiguous { accepted, reading } => {
+            ctx.hit(if accepted { "ambiguous-zone:accepted" } else { "ambiguous-zone:rejected" });
+            ctx.hit(&format!("ambiguous-reading:{reading}"));
+            ctx.sample(&format!("ambiguous-reading:{reading}"), || json!({"text": text, "accepted": accepted}));
         }
         Outcome::Open => ctx.hit("open-form-skipped"),
         Outcome::Mismatch { class, detail } => {
@@ -351,6 +360,20 @@ fn finish(m: &Merged, tier: Tier) -> Finish {
     f.floors.push(floor(format!("parent/child precedence-level pairs met on each side: {pairs} (missing: {})", missing.join(" ")), missing.is_empty()));
     f.floors.push(floor(format!("accepted {accepted} / rejected {rejected} enumerated sequences (floor: 1000 accepted, and some accepted at every length)"), accepted >= 1000 && (1..=4).all(|l| m.c(&format!("accepted:len{l}")) > 0)));
     f.floors.push(floor(format!("harness self-check failures: {}", m.c("selfcheck:printer-and-reference-parser-disagree")), m.c("selfcheck:printer-and-reference-parser-disagree") == 0));
+    // the one ambiguity of the table (a unary operator directly in a contains/in operand position) may be
+    // resolved either way, but in ONE way: a parser that follows both readings on different inputs
+    // has no fixed table
+    let (a, b) = (m.c("ambiguous-reading:operands-are-access-level"), m.c("ambiguous-reading:operands-are-unary-level"));
+    if a > 0 && b > 0 {
+        let ex = |k: &str| m.samples.get(k).cloned().unwrap_or_default();
+        f.violations.push(crate::core::Violation {
+            sig: "C07 contains/in with a unary operand is read in two different ways".into(),
+            what: format!("{a} texts follow the reading 'contains/in takes access-level operands' (unary operand rejected) and {b} follow 'unary-level operands' (accepted): not one fixed table"),
+            case: json!({"rejecting_examples": ex("ambiguous-reading:operands-are-access-level"), "accepting_examples": ex("ambiguous-reading:operands-are-unary-level")}),
+            count: a.min(b),
+        });
+    }
+    f.extras.insert("ambiguous_zone".into(), json!({"followed_access_level_reading": a, "followed_unary_level_reading": b}));
     f.extras.insert("sequences_accepted_by_length".into(), json!(m.prefix_map("accepted:")));
     f.extras.insert("sequences_rejected_by_length".into(), json!(m.prefix_map("rejected:")));
     f.extras.insert("families".into(), json!(m.prefix_map("family:")));
